@@ -19,6 +19,11 @@ theorem perDelta_calls (ds : List Delta) (sc : List Outcome) (a : Acc) :
     simp only [perDelta, ih, stepDelta_calls, singles, List.map_cons, List.append_assoc,
       List.cons_append, List.nil_append]
 
+theorem flatten_singles (ds : List Delta) : (singles ds).flatten = ds := by
+  induction ds with
+  | nil => rfl
+  | cons d ds ih => simp only [singles, List.map_cons, List.flatten_cons] at ih ⊢; rw [ih]; rfl
+
 theorem storePhase_calls (ds : List Delta) (sc : List Outcome) :
     (storePhase ds sc).calls =
       if (headO sc).isRet then [ds] else [ds] ++ singles ds := by
